@@ -30,6 +30,8 @@ pub struct FileLock {
 impl FileLock {
     /// Acquire an exclusive lock on `path`, blocking until it's available.
     pub fn lock(path: PathBuf) -> Result<Self, FileLockError> {
+        #[cfg(jj_vcs_jj_verif)]
+        let path = crate::verif::lock_path_hook(path);
         // In blocking mode, `lock_inner` never returns `Ok(None)`.
         Ok(Self::lock_inner(path, true)?.expect("blocking lock should return a lock"))
     }
@@ -104,6 +106,8 @@ impl FileLock {
 impl Drop for FileLock {
     #[instrument(skip_all)]
     fn drop(&mut self) {
+        #[cfg(jj_vcs_jj_verif)]
+        crate::verif::point("lock.release", &self.path.to_string_lossy());
         // Removing the file isn't strictly necessary, but reduces confusion.
         std::fs::remove_file(&self.path).ok();
         // Unblock any processes that tried to acquire the lock while we held it.
